@@ -1,5 +1,6 @@
 (* C18 proofs, part 3: the page padding loop - the three assert_eq!(put(..), Ok(n)) hold, no arithmetic wraps,
-   the slice &BLANK_PAGE[..n] is in range; under Put_spec. *)
+   the slice &BLANK_PAGE[..n] is in range; under Put_spec (discharged in TriasProofs4.v, which also proves fuel
+   sufficiency and the loop's effect on the dictionary). *)
 From Coq Require Import Arith NArith List Bool Lia ZifyBool ZifyNat ZifyN.
 From Trion Require Import Mem.MapModel Mem.DictSpec Mem.MapProofs Mem.MapProofs2.
 From Trion Require Import Bin.TriasModel Bin.TriasProofs.
